@@ -233,3 +233,53 @@ package submission
 //@ ensures [the-merged-pool-is-rebuilt-on-every-refresh] !old(d.rootCompatibilityCheckDisabled) ==> np.called
 //@ loop 2 step-assert [a-failed-fetch-is-reported-under-its-log] r.Err != nil ==> has(errors, r.LogURL) && errors[r.LogURL] == r.Err
 //@ loop 2 step-assert [a-pool-is-recorded-exactly-for-an-answer-that-has-one] r.Roots != nil ==> has(freshRoots, r.LogURL) && freshRoots[r.LogURL] == r.Roots
+
+// The public entry points (C17): both submission kinds go through addSomeChain with the caller's
+// chain and pending-log choice, the kind being the only difference, and what comes back is what
+// addSomeChain decided (the SCT set together with the "policy not satisfied" error, or neither).
+//@ func (*Distributor).AddPreChain
+//@ props C17
+//@ site addSomeChain#1 as a
+//@ requires ctx != nil && d != nil && d.usableLl != nil && d.policy != nil && d.pendingLogsPolicy != nil && (!d.rootCompatibilityCheckDisabled ==> d.rootPool != nil)
+//@ ensures [the-distributors-verdict-unchanged] a.called && result0 == a.res0 && result1 == a.res1
+//@ at a assert [as-a-precertificate-chain] a.d == d && a.rawChain == rawChain && a.loadPendingLogs == loadPendingLogs && a.asPreChain
+
+//@ func (*Distributor).AddChain
+//@ props C17
+//@ site addSomeChain#1 as a
+//@ requires ctx != nil && d != nil && d.usableLl != nil && d.policy != nil && d.pendingLogsPolicy != nil && (!d.rootCompatibilityCheckDisabled ==> d.rootPool != nil)
+//@ ensures [the-distributors-verdict-unchanged] a.called && result0 == a.res0 && result1 == a.res1
+//@ at a assert [as-a-certificate-chain] a.d == d && a.rawChain == rawChain && a.loadPendingLogs == loadPendingLogs && !a.asPreChain
+
+// The proxy in front of the distributor: without a distributor it refuses with no SCTs; with one it
+// returns that distributor's verdict for the same chain.
+//@ func (*Proxy).AddPreChain
+//@ props C17
+//@ site AddPreChain#1 as a
+//@ requires p != nil && rspLatency != nil
+//@ requires [the-active-distributor-is-one-NewDistributor-built] p.dist != nil ==> (ctx != nil && p.dist.usableLl != nil && p.dist.policy != nil && p.dist.pendingLogsPolicy != nil && (!p.dist.rootCompatibilityCheckDisabled ==> p.dist.rootPool != nil))
+//@ ensures [no-distributor-no-scts] old(p.dist) == nil ==> len(result0) == 0 && result1 != nil && !a.called
+//@ ensures [the-distributors-verdict-unchanged] old(p.dist) != nil ==> a.called && result0 == a.res0 && result1 == a.res1
+//@ at a assert [same-chain-to-the-active-distributor] a.d == old(p.dist) && a.rawChain == rawChain && a.loadPendingLogs == loadPendingLogs
+
+//@ func (*Proxy).AddChain
+//@ props C17
+//@ site AddChain#1 as a
+//@ requires p != nil && rspLatency != nil
+//@ requires [the-active-distributor-is-one-NewDistributor-built] p.dist != nil ==> (ctx != nil && p.dist.usableLl != nil && p.dist.policy != nil && p.dist.pendingLogsPolicy != nil && (!p.dist.rootCompatibilityCheckDisabled ==> p.dist.rootPool != nil))
+//@ ensures [no-distributor-no-scts] old(p.dist) == nil ==> len(result0) == 0 && result1 != nil && !a.called
+//@ ensures [the-distributors-verdict-unchanged] old(p.dist) != nil ==> a.called && result0 == a.res0 && result1 == a.res1
+//@ at a assert [same-chain-to-the-active-distributor] a.d == old(p.dist) && a.rawChain == rawChain && a.loadPendingLogs == loadPendingLogs
+
+// The SCT set as an RFC 6962 s3.3 list: never an empty list, every SCT of the set, in order.
+//@ func ASN1MarshalSCTs
+//@ props C17 C04
+//@ arith int
+//@ site x509util.MarshalSCTsIntoSCTList#1 as ms
+//@ requires forall j int :: 0 <= j && j < len(scts) ==> scts[j] != nil
+//@ loop 1 invariant disjoint(unassignedSCTs, scts)
+//@ loop 1 invariant forall j int :: 0 <= j && j < len(scts) ==> scts[j] != nil
+//@ loop 1 invariant len(unassignedSCTs) == rangeindex + 1 && (forall j int :: 0 <= j && j <= rangeindex ==> unassignedSCTs[j] == scts[j].SCT)
+//@ ensures [an-empty-set-is-refused] len(scts) == 0 ==> result1 != nil && !ms.called
+//@ ensures [a-list-that-cannot-be-built-is-an-error] ms.called && ms.res1 != nil ==> result1 != nil && len(result0) == 0
+//@ at ms assert [every-sct-of-the-set-in-order] len(ms.scts) == len(scts) && (forall j int :: 0 <= j && j < len(scts) ==> ms.scts[j] == scts[j].SCT)
